@@ -278,19 +278,36 @@ func faultHistories(c *Ctx) {
 					var pv interface{}
 					for i, sl := range seq {
 						if sl.slot == "o0" {
-							if r := emitSlot(l2, sl.slot, sl.k, sl.fault); r != nil {
+							want2 = append(want2, refs[i]...)
+						} else {
+							want = append(want, refs[i]...)
+						}
+					}
+					desc := map[string]interface{}{"l :=": p.src, "l2 :=": other.src + "   (a destination of its own that never fails)", "history (one goroutine, GOMAXPROCS(1), event / array / console pools emptied first; ErrorHandler is a no-op)": steps, "fault": fc.src}
+					if fc.fmtFault == "formatter-panics" && tooManyHung() {
+						break // earlier panic scenarios of this run hung and left their goroutines behind: no more of them
+					}
+					// the history runs on a goroutine of its own, watched: an event that never comes back (a lock still
+					// held after the recovered panic of the event before it) is a lost event, not a hung check
+					var progress int64
+					if !runWatched(func() {
+						for _, sl := range seq {
+							ll := l
+							if sl.slot == "o0" {
+								ll = l2
+							}
+							if r := emitSlot(ll, sl.slot, sl.k, sl.fault); r != nil {
 								pv = r
 							}
-							want2 = append(want2, refs[i]...)
-							continue
+							atomic.AddInt64(&progress, 1)
 						}
-						if r := emitSlot(l, sl.slot, sl.k, sl.fault); r != nil {
-							pv = r
-						}
-						want = append(want, refs[i]...)
+					}, &progress, stallLimit) {
+						histories++
+						n := int(atomic.LoadInt64(&progress))
+						c.Violate(Violation{Key: "logging-call-blocked-after-fault", Monitor: "fault-history-sequential", Desc: fmt.Sprintf("pipeline %s; one event meets a fault (%s); the logging call of step %d of the history (0-based) did not come back within %v: that event and every later one through this pipeline are lost", p.name, fc.name, n, stallLimit), Case: desc, Observed: fmt.Sprintf("steps 0..%d returned, step %d blocked", n-1, n), Expected: "every logging call returns and its event reaches the destination"})
+						break
 					}
 					histories++
-					desc := map[string]interface{}{"l :=": p.src, "l2 :=": other.src + "   (a destination of its own that never fails)", "history (one goroutine, GOMAXPROCS(1), event / array / console pools emptied first; ErrorHandler is a no-op)": steps, "fault": fc.src}
 					if pv != nil {
 						c.Violate(Violation{Key: "logging-call-panicked", Monitor: "fault-history-sequential", Desc: fmt.Sprintf("pipeline %s, fault %s: a logging call of the history panicked: %v", p.name, fc.name, pv), Case: desc})
 						break
@@ -368,6 +385,10 @@ func faultConcurrent(c *Ctx) {
 		var wg sync.WaitGroup
 		var pmu sync.Mutex
 		var panicked []string
+		var progress int64
+		if p.console && tooManyHung() {
+			continue // earlier panic scenarios of this run hung and left their goroutines behind: no more of them
+		}
 		for g := 0; g < G; g++ {
 			wg.Add(1)
 			go func(g int) {
@@ -378,15 +399,22 @@ func faultConcurrent(c *Ctx) {
 						panicked = append(panicked, fmt.Sprint(pv))
 						pmu.Unlock()
 					}
+					atomic.AddInt64(&progress, 1)
 					if i%5 == 0 {
 						runtime.Gosched()
 					}
 				}
 			}(g)
 		}
-		wg.Wait()
 		desc := map[string]interface{}{"l :=": p.src, "goroutines": G, "each logs": fmt.Sprintf(`for i in 0..%d: e := l.Info().Str("verifid", "g<g>-<i>").Int("k", g+i).Str("pad", ((g+i)*37)%%150 x "p"); every third with a Dict; e.Msg("m-g<g>-<i>")`, N-1),
 			"destination": "answers every 4th call with a fault, in rotation: (0, err), (len/2, err), (len/2, nil), (0, nil), (len, err); records its argument on entry", "formatter faults": "ConsoleWriter pipelines with formatters: every 7th event carries fault=prepare-fails / extra-fails-early / extra-fails-late / formatter-panics (recovered by the caller) in rotation", "ErrorHandler": "no-op"}
+		if !runWatched(wg.Wait, &progress, stallLimit) {
+			w.mu.Lock()
+			n := len(w.calls)
+			w.mu.Unlock()
+			c.Violate(Violation{Key: "logging-call-blocked-after-fault", Monitor: "fault-concurrent", Desc: fmt.Sprintf("pipeline %s, %d goroutines, a destination that refuses every 4th call, formatter faults (one of them a panic the caller recovers): no logging call came back for %v, %d of %d calls returned, the destination received %d Writes: the remaining events are lost", p.name, G, stallLimit, atomic.LoadInt64(&progress), G*N, n), Case: desc, Observed: fmt.Sprintf("%d of %d logging calls returned", atomic.LoadInt64(&progress), G*N), Expected: "every logging call returns"})
+			continue
+		}
 		if len(panicked) != 0 {
 			c.Violate(Violation{Key: "logging-call-panicked", Monitor: "fault-concurrent", Desc: fmt.Sprintf("pipeline %s: %d logging calls panicked (first: %s)", p.name, len(panicked), panicked[0]), Case: desc})
 		}
